@@ -68,7 +68,7 @@ Print Assumptions c03_sequences.
 (* non-vacuity: a get whose reply is cut inside the header, inside CR LF and inside the value *)
 Definition c03_cfg : cfg :=
   {| c_tcp := false; c_naddr := 1; c_nodelay := false; c_tls := false; c_keepalive := false; c_ignore_exc := false;
-     c_prefix := []; c_default_noreply := true; c_unicode := false; c_enc := EncAscii; c_serde := 0;
+     c_prefix := []; c_default_noreply := true; c_unicode := false; c_enc := EncAscii; c_serde := 0; c_orc := no_oracles 0;
      h_fetch := BaseException; h_store := BaseException; h_misc := BaseException |}.
 Definition c03_reply : list Z :=   (* VALUE k 0 4\r\na\r\nb\r\nEND\r\n *)
   [86;65;76;85;69;32;107;32;48;32;52;13;10;97;13;10;98;13;10;69;78;68;13;10].
